@@ -16,34 +16,67 @@ from ..pyexpr import Untranslatable
 PINNED = {}
 
 
-def _hook_factory(cols_name):
+MUTABLE = {"self.columns": "cols_"}
+
+
+def _is_find_call(n):
+    return isinstance(n, ast.Call) and ast.unparse(n.func) == "self.find_column" and 1 <= len(n.args) <= 2 and not n.keywords
+
+
+def _hook_factory(state):
+    """`state`: a dict the statement hooks write to (`key_kind`: what the argument of `column(i)` is known to be)."""
     def hook(n, go):
         # column.all_names  ->  the generated all_names applied to the column
         if isinstance(n, ast.Attribute) and n.attr == "all_names":
             return "(all_names %s)" % go(n.value)
-        # self.find_column(name[, case_insensitive])  ->  the generated find_column
-        if isinstance(n, ast.Call) and ast.unparse(n.func) == "self.find_column" and 1 <= len(n.args) <= 2 and not n.keywords:
-            ci = go(n.args[1]) if len(n.args) == 2 else "false"
-            return "(find_column lower self_ %s %s)" % (go(n.args[0]), ci)
+        # self.find_column(name[, case_insensitive])  ->  the generated find_column (on the schema as it is *now*)
+        if _is_find_call(n):
+            ex = state["ex"]
+            if "self.columns" in ex.mutated:
+                raise Untranslatable("find_column after the column list was changed")
+            if len(n.args) == 2 and not (isinstance(n.args[1], ast.Constant) and n.args[1].value is False):
+                ci, low = go(n.args[1]), "lower"
+                if not state.get("has_lower"):
+                    raise Untranslatable("case-insensitive lookup in a function without `lower`")
+            else:
+                ci, low = "false", ("lower" if state.get("has_lower") else "id")
+            a = n.args[0]
+            if isinstance(a, ast.Name) and state.get("key_kind", {}).get(a.id) == "int":
+                return "none"  # an int is never among the names: `5 in column.all_names` is False for every column
+            return "(find_column %s self_ %s %s)" % (low, go(a), ci)
+        # properties / methods of the schema that are generated too
+        if isinstance(n, ast.Attribute) and ast.unparse(n) in ("self.column_names", "self.num_columns"):
+            return "(%s self_)" % n.attr
+        if isinstance(n, ast.Call) and ast.unparse(n.func) == "self.all_column_names" and not n.args and not n.keywords:
+            return "(all_column_names self_)"
         # iter(xs) is the list it iterates
         if isinstance(n, ast.Call) and isinstance(n.func, ast.Name) and n.func.id == "iter" and len(n.args) == 1 and not n.keywords:
             return go(n.args[0])
         # RelationSchema(name=…, aliases=…, columns=…)
-        if isinstance(n, ast.Call) and isinstance(n.func, ast.Name) and n.func.id == "RelationSchema" and not n.args:
+        if isinstance(n, ast.Call) and isinstance(n.func, ast.Name) and n.func.id == "RelationSchema":
             kw = {k.arg: go(k.value) for k in n.keywords}
-            if set(kw) != {"name", "aliases", "columns"}:
-                raise Untranslatable("RelationSchema(%s)" % ", ".join(sorted(kw)))
+            for pos, a in zip(("name", "aliases", "columns"), n.args):
+                if pos in kw:
+                    raise Untranslatable("RelationSchema: %s given twice" % pos)
+                kw[pos] = go(a)
+            if len(n.args) > 3 or set(kw) != {"name", "aliases", "columns"}:
+                raise Untranslatable("RelationSchema(%s)" % ", ".join(sorted(k for k in kw if k)))
             return "({ name := %s, aliases := %s, columns := %s } : Schema ι ν)" % (kw["name"], kw["aliases"], kw["columns"])
         return None
     return hook
 
 
-def _ex(extra_env=None, records=(), listy=()):
+def _ex(extra_env=None, records=(), listy=(), has_lower=False):
     env = {"self.columns": "self_.columns", "self.name": "self_.name", "self.aliases": "self_.aliases",
-           "other.columns": "other.columns"}
+           "other.columns": "other.columns", "other.name": "other.name", "other.aliases": "other.aliases", "self": "self_"}
     env.update(extra_env or {})
-    return pystmt.Expr(env=env, records=set(records) | {"column", "col", "c"}, methods={"lower": "lower"},
-                       hook=_hook_factory("self_.columns"), listy=set(listy) | {"self.columns", "other.columns"})
+    state = {"has_lower": has_lower}
+    ex = pystmt.Expr(env=env, records=set(records) | {"column", "col", "c"}, methods={"lower": "lower"},
+                     hook=_hook_factory(state), listy=set(listy) | {"self.columns", "other.columns", "self.aliases", "other.aliases"},
+                     optlist_attrs={"aliases"}, opt_hook=_is_find_call)
+    state["ex"] = ex
+    ex.c17 = state
+    return ex
 
 
 def t_all_names(sch):
@@ -62,7 +95,16 @@ def t_all_names(sch):
                 return "(self_.aliases = none)"
         return saved_go(n)
     ex.go = go
-    return pystmt.function(fn, "all_names", [(None, "(self_ : Col ι ν)")], "List ν", ex, k="[]")
+    return pystmt.function(fn, "all_names", [(None, "(self_ : Col ι ν)")], "List ν", ex, k="[]", fold_redex=True)
+
+
+def _opt_ret(v, ex):
+    """a returned Optional[FlatColumn]"""
+    if v is None or ast.unparse(v) == "None":
+        return "none"
+    if ex.is_opt(v):
+        return ex.go(v)
+    return "some %s" % ex.go(v)
 
 
 def t_find_column(sch):
@@ -74,8 +116,7 @@ def t_find_column(sch):
     return pystmt.function(fn, "find_column",
                            [(None, "(lower : ν → ν)"), (None, "(self_ : Schema ι ν)"), ("column_name", "(column_name : ν)"),
                             ("case_insensitive", "(case_insensitive : Bool)")],
-                           "Option (Col ι ν)", ex, ret=lambda v, ex: "none" if v is None or ast.unparse(v) == "None" else "some %s" % ex.go(v),
-                           k="none")
+                           "Option (Col ι ν)", ex, ret=_opt_ret, k="none", fold_redex=True)
 
 
 def t_pop_column(sch):
@@ -85,15 +126,17 @@ def t_pop_column(sch):
     ex = _ex()
 
     def ret(v, ex):
+        cols = ex.env["self.columns"]
         if v is None or ast.unparse(v) == "None":
-            return "(none, self_.columns)"
+            return "(none, %s)" % cols
         if isinstance(v, ast.Call) and isinstance(v.func, ast.Attribute) and v.func.attr == "pop" \
-                and ast.unparse(v.func.value) == "self.columns" and len(v.args) == 1:
+                and ast.unparse(v.func.value) == "self.columns" and len(v.args) == 1 and not v.keywords:
             i = ex.go(v.args[0])
-            return "((self_.columns)[%s]?, (self_.columns).eraseIdx %s)" % (i, i)
-        raise Untranslatable("pop_column returns %s" % ast.unparse(v))
+            return "((%s)[%s]?, (%s).eraseIdx %s)" % (cols, i, cols, i)
+        return "(%s, %s)" % (_opt_ret(v, ex), cols)
     return pystmt.function(fn, "pop_column", [(None, "(self_ : Schema ι ν)"), ("column_name", "(column_name : ν)")],
-                           "Option (Col ι ν) × List (Col ι ν)", ex, ret=ret, k="(none, self_.columns)")
+                           "Option (Col ι ν) × List (Col ι ν)", ex, ret=ret, k=lambda ex: "(none, %s)" % ex.env["self.columns"],
+                           mutable=MUTABLE, fold_redex=True)
 
 
 def t_add(sch):
@@ -101,18 +144,98 @@ def t_add(sch):
     if [a.arg for a in fn.args.args] != ["self", "other"]:
         raise Untranslatable("__add__ signature")
     ex = _ex(records={"other"})
-    return pystmt.function(fn, "add", [(None, "(self_ : Schema ι ν)"), (None, "(other : Schema ι ν)")], "Schema ι ν", ex,
-                           ret=lambda v, ex: ex.go(v), k="self_")
+    return pystmt.function(fn, "add", [(None, "(self_ : Schema ι ν)"), ("other", "(other : Schema ι ν)")], "Schema ι ν", ex,
+                           ret=lambda v, ex: ex.go(v), k="self_", fold_redex=True)
 
 
 def t_column_names(sch):
     fn = sch.func("column_names", "RelationSchema")
-    return pystmt.function(fn, "column_names", [(None, "(self_ : Schema ι ν)")], "List ν", _ex(), ret=lambda v, ex: ex.go(v), k="[]")
+    return pystmt.function(fn, "column_names", [(None, "(self_ : Schema ι ν)")], "List ν", _ex(), ret=lambda v, ex: ex.go(v), k="[]", fold_redex=True)
+
+
+def t_num_columns(sch):
+    fn = sch.func("num_columns", "RelationSchema")
+    return pystmt.function(fn, "num_columns", [(None, "(self_ : Schema ι ν)")], "Nat", _ex(), ret=lambda v, ex: ex.go(v), k="0", fold_redex=True)
 
 
 def t_iter(sch):
     fn = sch.func("__iter__", "RelationSchema")
-    return pystmt.function(fn, "iter_names", [(None, "(self_ : Schema ι ν)")], "List ν", _ex(), ret=lambda v, ex: ex.go(v), k="[]")
+    return pystmt.function(fn, "iter_names", [(None, "(self_ : Schema ι ν)")], "List ν", _ex(), ret=lambda v, ex: ex.go(v), k="[]", fold_redex=True)
+
+
+def t_column(sch):
+    """`column(i)`: the run-time type test on the argument becomes a `match` on `Key` (`int` / `bool` / `str`)."""
+    fn = sch.func("column", "RelationSchema")
+    args = [a.arg for a in fn.args.args]
+    if len(args) != 2 or args[0] != "self":
+        raise Untranslatable("column%r" % (args,))
+    arg = args[1]
+    ex = _ex()
+    state = ex.c17
+    state["key_kind"] = {}
+
+    def type_test(t):
+        """(positive?, class name) for isinstance(i, C) / type(i) is C / not …"""
+        if isinstance(t, ast.UnaryOp) and isinstance(t.op, ast.Not):
+            r = type_test(t.operand)
+            return None if r is None else (not r[0], r[1], r[2])
+        if isinstance(t, ast.Call) and isinstance(t.func, ast.Name) and t.func.id == "isinstance" and len(t.args) == 2 \
+                and isinstance(t.args[0], ast.Name) and t.args[0].id == arg and isinstance(t.args[1], ast.Name):
+            return (True, t.args[1].id, "isinstance")
+        if isinstance(t, ast.Compare) and len(t.ops) == 1 and isinstance(t.ops[0], (ast.Is, ast.Eq, ast.IsNot, ast.NotEq)) \
+                and ast.unparse(t.left) == "type(%s)" % arg and isinstance(t.comparators[0], ast.Name):
+            return (isinstance(t.ops[0], (ast.Is, ast.Eq)), t.comparators[0].id, "type")
+        return None
+
+    # which constructors of Key pass the test: isinstance(True, int) holds, type(True) is int does not
+    PASS = {("isinstance", "int"): {"idx", "flag"}, ("isinstance", "bool"): {"flag"}, ("isinstance", "str"): {"name"},
+            ("type", "int"): {"idx"}, ("type", "bool"): {"flag"}, ("type", "str"): {"name"}}
+
+    def stmt_hook(s, rest, k, depth, st):
+        if not isinstance(s, ast.If) or arg in state["key_kind"]:
+            return None
+        tt = type_test(s.test)
+        if tt is None:
+            return None
+        pos, cls, how = tt
+        if (how, cls) not in PASS:
+            raise Untranslatable("type test against %s" % cls)
+        passing = PASS[(how, cls)]
+        pad = st.ind * depth
+        arms = []
+        for ctor, binder, kind, pre in (("idx", arg, "int", ""), ("flag", arg + "_flag", "int", "let %s := boolIndex %s_flag\n" % (arg, arg)),
+                                        ("name", arg, "str", "")):
+            taken = (ctor in passing) == pos
+            state["key_kind"][arg] = kind
+            try:
+                body = st.block(list(s.body if taken else s.orelse) + rest, k, depth + 1)
+            finally:
+                state["key_kind"].pop(arg, None)
+            if pre:
+                body = pre + pad + st.ind + body
+            arms.append("%s| .%s %s =>\n%s%s%s" % (pad, ctor, binder, pad, st.ind, body))
+        return "match %s with\n%s" % (arg, "\n".join(arms))
+
+    def ret(v, ex):
+        if v is None or ast.unparse(v) == "None":
+            return ".col none"
+        # self.columns[i]: Python list indexing (negative indexes, IndexError)
+        if isinstance(v, ast.Subscript) and ast.unparse(v.value) == "self.columns" and not isinstance(v.slice, ast.Slice):
+            if not (isinstance(v.slice, ast.Name) and state["key_kind"].get(v.slice.id) == "int"):
+                raise Untranslatable("index %s is not known to be an int" % ast.unparse(v.slice))
+            return "Out.ofIndex (pyIndex %s %s)" % (ex.go(v.value), ex.go(v.slice))
+        return ".col (%s)" % _opt_ret(v, ex)
+
+    real_go = ex.go
+
+    def go(n):
+        # the argument used as a value must be used at the type the branch knows
+        if isinstance(n, ast.Name) and n.id == arg and arg not in state["key_kind"]:
+            raise Untranslatable("%s used before its type is tested" % arg)
+        return real_go(n)
+    ex.go = go
+    return pystmt.function(fn, "column", [(None, "(self_ : Schema ι ν)"), (arg, "(%s : Key ν)" % arg)], "Out ι ν", ex, ret=ret,
+                           k=".col none", stmt_hook=stmt_hook, fold_redex=True)
 
 
 def t_all_column_names(sch):
@@ -126,7 +249,7 @@ def t_all_column_names(sch):
             term = pystmt.generator_as_list(body[0], ex)
             return "def all_column_names (self_ : Schema ι ν) : List ν :=\n  %s\n" % term
     # a plain body (comprehension / loop with appends)
-    return pystmt.function(fn, "all_column_names", [(None, "(self_ : Schema ι ν)")], "List ν", ex, ret=lambda v, ex: ex.go(v), k="[]")
+    return pystmt.function(fn, "all_column_names", [(None, "(self_ : Schema ι ν)")], "List ν", ex, ret=lambda v, ex: ex.go(v), k="[]", fold_redex=True)
 
 
 PINNED_FILE = os.path.join(os.path.dirname(os.path.abspath(__file__)), "pinned", "c17_fns.json")
@@ -139,27 +262,164 @@ def _pinned():
         return {}
 
 
-TRANSLATORS = (("all_names", t_all_names), ("find_column", t_find_column), ("pop_column", t_pop_column), ("add", t_add),
-               ("column_names", t_column_names), ("iter_names", t_iter), ("all_column_names", t_all_column_names))
+# in dependency order: a later function may call an earlier one
+TRANSLATORS = (("all_names", t_all_names), ("column_names", t_column_names), ("all_column_names", t_all_column_names),
+               ("num_columns", t_num_columns), ("find_column", t_find_column), ("column", t_column), ("pop_column", t_pop_column),
+               ("add", t_add), ("iter_names", t_iter))
+
+
+# which translated functions each equivalence theorem of Props/C17.lean talks about, and how the battery
+# (Lemmas/SchemaBattery.lean) runs them against the model
+THEOREMS = {
+    "generated_all_names_eq_model": (["all_names"], "checkAllNames (fun c => Gen.SchemaFns.all_names c)"),
+    "generated_find_column_eq_model": (["find_column", "all_names"],
+                                       "checkFind (fun lower s k ci => Gen.SchemaFns.find_column lower s k ci)"),
+    "generated_column_eq_model": (["column", "find_column", "all_names"], "checkColumn (fun s k => Gen.SchemaFns.column s k)"),
+    "generated_pop_column_eq_model": (["pop_column", "find_column", "all_names"], "checkPop (fun s k => Gen.SchemaFns.pop_column s k)"),
+    "generated_add_eq_model": (["add"], "checkAdd (fun a b => Gen.SchemaFns.add a b)"),
+    "generated_names_eq_model": (["column_names", "iter_names", "all_column_names", "num_columns", "all_names"],
+                                 "checkNames (fun s => Gen.SchemaFns.column_names s) (fun s => Gen.SchemaFns.iter_names s) "
+                                 "(fun s => Gen.SchemaFns.all_column_names s) (fun s => Gen.SchemaFns.num_columns s)"),
+}
+
+# the functions a theorem is *about* (the others in its list are only called by them)
+PRIMARY = {"generated_all_names_eq_model": ["all_names"], "generated_find_column_eq_model": ["find_column"],
+           "generated_column_eq_model": ["column"], "generated_pop_column_eq_model": ["pop_column"],
+           "generated_add_eq_model": ["add"],
+           "generated_names_eq_model": ["column_names", "iter_names", "all_column_names", "num_columns"]}
+
+GEN_PRELUDE = ("/-! The schema operations of orso/schema.py, translated statement by statement (harness/pystmt.py). -/\n"
+               "set_option linter.unusedVariables false\nopen _root_.SchemaOps\nnamespace Gen.SchemaFns\n"
+               "variable {ι ν : Type} [DecidableEq ι] [DecidableEq ν]\n\n")
+GEN_FOOTER = "\nend Gen.SchemaFns\n"
+
+
+def _eq_section():
+    """the equivalence theorems, as they stand in Props/C17.lean (between the BEGIN/END markers)"""
+    text = open(os.path.join(core.LEAN, "OrsoVerif", "Props", "C17.lean"), encoding="utf-8").read()
+    a = text.index("-- BEGIN generated-eq")
+    b = text.index("-- END generated-eq")
+    return text[a:b]
+
+
+def _lean(text, tag):
+    import subprocess
+    import tempfile
+
+    d = os.path.join(core.LEAN, ".lake")
+    os.makedirs(d, exist_ok=True)
+    with tempfile.NamedTemporaryFile("w", suffix=".lean", prefix=tag, dir=d, delete=False, encoding="utf-8") as f:
+        f.write(text)
+        tmp = f.name
+    try:
+        p = subprocess.run(["lake", "env", "lean", tmp], cwd=core.LEAN, capture_output=True, text=True, timeout=900)
+        return p.returncode, p.stdout + p.stderr, os.path.basename(tmp)
+    finally:
+        os.unlink(tmp)
+
+
+def trial(parts):
+    """Elaborate the equivalence theorems against a candidate translation.
+
+    Returns {theorem: None (checks) | "differs: <input>" | "same"}: for a theorem that no longer checks the battery
+    says whether the translated function differs from the model on some small input or agrees on the whole scope."""
+    import hashlib
+    import re
+
+    defs = GEN_PRELUDE + "\n".join(t for _, t in parts) + GEN_FOOTER
+    section = _eq_section()
+    head = ("import OrsoVerif.Model.SchemaOps\nimport OrsoVerif.Lemmas.SchemaOps\nimport OrsoVerif.Lemmas.SchemaFns\n"
+            "import OrsoVerif.Lemmas.SchemaBattery\n" + defs)
+    body = ("set_option linter.unusedSectionVars false\nset_option linter.unusedSimpArgs false\nnamespace C17\nopen SchemaOps\n"
+            "variable {ι ν : Type} [DecidableEq ι] [DecidableEq ν]\n")
+    text = head + body + section + "\nend C17\n"
+    deps = ""
+    for rel in ("Lemmas/SchemaFns.lean", "Lemmas/SchemaBattery.lean", "Lemmas/SchemaOps.lean", "Model/SchemaOps.lean"):
+        try:
+            deps += open(os.path.join(core.LEAN, "OrsoVerif", rel), encoding="utf-8").read()
+        except OSError:
+            pass
+    key = hashlib.sha256((text + deps).encode()).hexdigest()
+    cache_file = os.path.join(core.LEAN, ".lake", "SchemaFns.trial.json")
+    try:
+        cache = json.load(open(cache_file))
+    except (OSError, ValueError):
+        cache = {}
+    if key in cache:
+        return cache[key]
+    core.lake_build(["OrsoVerif.Lemmas.SchemaFns", "OrsoVerif.Lemmas.SchemaBattery"])
+    rc, out, base = _lean(text, "SchemaFnsTrial")
+    # theorem spans inside the trial file
+    lines = text.split("\n")
+    starts = [(i + 1, m.group(1)) for i, l in enumerate(lines) for m in [re.match(r"theorem (\w+)", l)] if m]
+    spans = [(nm, lo, (starts[j + 1][0] - 1) if j + 1 < len(starts) else len(lines)) for j, (lo, nm) in enumerate(starts)]
+    bad_lines = [int(m.group(1)) for m in re.finditer(re.escape(base) + r":(\d+):\d+: error", out)]
+    first_def_line = head.count("\n") + 1
+    if rc != 0 and (not bad_lines or min(bad_lines) < first_def_line):
+        # the definitions themselves do not elaborate here: nothing can be said (compile_checked decides)
+        return {nm: None for nm in THEOREMS}
+    verdict = {}
+    failing = [nm for nm, lo, hi in spans if any(lo <= b <= hi for b in bad_lines) and nm in THEOREMS]
+    for nm in THEOREMS:
+        verdict[nm] = None
+    if failing:
+        # later theorems use earlier ones (`simp [generated_all_names_eq_model]`): judge each failing one by running it
+        btext = head + "open SchemaBattery\n" + "".join("#eval %s\n" % THEOREMS[nm][1] for nm in failing)
+        rc2, out2, _ = _lean(btext, "SchemaFnsBattery")
+        res = re.findall(r"^(none|some \".*\")$", out2, re.M)
+        if len(res) != len(failing):
+            return {nm: None for nm in THEOREMS}  # the battery could not run: leave everything to the real build
+        for nm, r in zip(failing, res):
+            verdict[nm] = "same" if r == "none" else "differs: " + r[6:-1][:400]
+    cache[key] = verdict
+    try:
+        json.dump(cache, open(cache_file, "w"))
+    except OSError:
+        pass
+    return verdict
 
 
 def generate(o):
     sch = Src("orso/schema.py")
-    parts = []
     pinned = _pinned()
     fresh = {}
     for key, fn in TRANSLATORS:
         # degraded (a shape the translator does not know): the translation of the pinned tree is written instead
-        parts.append(o.item("schema.fn." + key, lambda fn=fn: fn(sch), pinned.get(key, "-- %s: not translated\n" % key)))
-        fresh[key] = parts[-1]
+        fresh[key] = o.item("schema.fn." + key, lambda fn=fn: fn(sch), pinned.get(key, "-- %s: not translated\n" % key))
     if os.environ.get("ORSO_VERIF_WRITE_PINNED") == "c17_fns":
         os.makedirs(os.path.dirname(PINNED_FILE), exist_ok=True)
         json.dump(fresh, open(PINNED_FILE, "w"), indent=1, sort_keys=True)
-    header = HEADER + "import OrsoVerif.Model.SchemaOps\n"
-    header += "/-! The schema operations of orso/schema.py, translated statement by statement (harness/pystmt.py). -/\n"
-    header += "set_option linter.unusedVariables false\nopen _root_.SchemaOps\nnamespace Gen.SchemaFns\nvariable {ι ν : Type} [DecidableEq ι] [DecidableEq ν]\n\n"
-    text, bad = pystmt.compile_checked(header, [(k, fresh[k]) for k, _ in TRANSLATORS], "\nend Gen.SchemaFns\n", pinned,
-                                       core.LEAN, "SchemaFns")
+        pinned = dict(fresh)
+    header = HEADER + "import OrsoVerif.Model.SchemaOps\n" + GEN_PRELUDE
+    keys = [k for k, _ in TRANSLATORS]
+    text, bad = pystmt.compile_checked(header, [(k, fresh[k]) for k in keys], GEN_FOOTER, pinned, core.LEAN, "SchemaFns")
     for k in bad:
         o.degraded.append("schema.fn.%s (the translation does not elaborate in Lean; pinned text used)" % k)
-    o.files["SchemaFns.lean"] = text
+    eff = {k: (pinned.get(k, fresh[k]) if k in bad else fresh[k]) for k in keys}
+    differs = {}
+    for _ in range(3):
+        changed = [k for k in keys if eff[k] != pinned.get(k)]
+        if not changed:
+            break
+        try:
+            verdict = trial([(k, eff[k]) for k in keys])
+        except Exception as e:  # the trial is an optimisation of the verdict's wording, never a reason to stop
+            o.degraded.append("schema.fn trial failed (%s: %s)" % (type(e).__name__, str(e)[:80]))
+            break
+        again = False
+        for nm, v in verdict.items():
+            if v == "same":
+                # the proof script does not recognise this spelling, the battery finds no difference on the whole small
+                # scope: as for any unknown shape, the pinned translation stands in and the correspondence carries it
+                own = [k for k in THEOREMS[nm][0] if k in PRIMARY[nm] and k in changed and eff[k] != pinned.get(k)]
+                for k in own or [k for k in THEOREMS[nm][0] if k in changed and eff[k] != pinned.get(k)]:
+                    eff[k] = pinned[k]
+                    again = True
+                    o.degraded.append("schema.fn.%s (translated, but %s does not recognise the spelling; no difference from "
+                                      "the model on the small scope; pinned text used)" % (k, nm))
+            elif v:
+                differs[nm] = v
+        if not again:
+            break
+    o.json["schema.fn.differs_from_model"] = differs
+    o.files["SchemaFns.lean"] = header + "\n".join(eff[k] for k in keys) + GEN_FOOTER
